@@ -111,7 +111,7 @@ def run(ctx, pid, args):
         ok_drv, log_drv, errs_drv, _ = vlib.lake_build(['PdbVerif.Driver.Main'])
         ok_spec = True
         if not ok_drv:
-            ok_spec, log_spec, errs_spec, _ = vlib.lake_build(['PdbVerif.Driver.SpecOps'])
+            ok_spec, log_spec, errs_spec, _ = vlib.lake_build(['PdbVerif.Driver.MainSpecOnly'])
         pins = list(getattr(P, 'PIN_TARGETS', []))
         pin_fail = []
         for pt in pins:
